@@ -1299,6 +1299,9 @@ enum ROp {
     Copy { on_copy: bool, via_solution: bool },
     /// `deep_slice` keeping the actors of `mask`
     Slice { mask: u32, on_slice: bool },
+    /// `SolutionContext::keep_routes` over the held routes (random part, registry context only): routes of actors outside
+    /// `mask` are dropped, their vehicles have to be released
+    KeepRoutes { mask: u32 },
 }
 
 impl ROp {
@@ -1312,6 +1315,7 @@ impl ROp {
             ROp::Copy { via_solution: false, .. } => "deep_copy",
             ROp::Copy { via_solution: true, .. } => "solution_deep_copy",
             ROp::Slice { .. } => "deep_slice",
+            ROp::KeepRoutes { .. } => "keep_routes",
         }
     }
 }
@@ -1479,6 +1483,7 @@ fn count_reg_op(cx: &mut Cx, m: &RegModel, op: &ROp) {
         ROp::Copy { via_solution: false, .. } => "deep_copy",
         ROp::Copy { via_solution: true, .. } => "solution_ctx.deep_copy",
         ROp::Slice { .. } => "deep_slice",
+        ROp::KeepRoutes { .. } => "solution_ctx.keep_routes",
     };
     cx.obs("registry_ops", key);
 }
@@ -1650,7 +1655,7 @@ impl<'a> RegRunner<'a> {
                     Err(p) => Err(p),
                 }
             }
-            ROp::GetRoute { .. } | ROp::UseRoute { .. } | ROp::FreeRoute { .. } => Ok(Ok(())),
+            ROp::GetRoute { .. } | ROp::UseRoute { .. } | ROp::FreeRoute { .. } | ROp::KeepRoutes { .. } => Ok(Ok(())),
         };
         match verdict {
             Err(p) => {
@@ -1975,6 +1980,56 @@ impl<'a> CtxRunner<'a> {
                     }
                 })
             }
+            ROp::KeepRoutes { mask } => {
+                // the registry context travels inside a SolutionContext together with the held routes
+                let order: Vec<usize> = (0..n).filter(|&a| main.held[a].is_some()).collect();
+                // domain: a solution's routes are routes of vehicles in use (keep_routes asserts it)
+                if order.iter().any(|&a| !(self.model.reg.member[a] && self.model.reg.used[a])) {
+                    cx.obs("registry_ops", "solution_ctx.keep_routes:outside-domain(a held route of a vehicle not in use; not applied)");
+                    self.main = Some(main);
+                    return true;
+                }
+                let routes: Vec<RouteContext> = order.iter().map(|&a| main.held[a].take().unwrap()).collect();
+                let keep_actors: Vec<*const Actor> = order.iter().filter(|&&a| mask >> a & 1 == 1).map(|&a| Arc::as_ptr(fw.actor(a))).collect();
+                let mut sol = SolutionContext { required: vec![], ignored: vec![], unassigned: Default::default(), locked: Default::default(), routes, registry: main.ctx, state: Default::default() };
+                let res = guard(|| {
+                    sol.keep_routes(&|rc| keep_actors.contains(&Arc::as_ptr(&rc.route().actor)));
+                    sol
+                });
+                // model: dropped routes release their vehicles
+                for &a in order.iter().filter(|&&a| mask >> a & 1 == 0) {
+                    self.model.held[a] = None;
+                    if self.model.reg.member[a] {
+                        self.model.reg.used[a] = false;
+                    }
+                }
+                match res {
+                    Ok(sol) => {
+                        let kept: Vec<usize> = order.iter().copied().filter(|&a| mask >> a & 1 == 1).collect();
+                        let ok = sol.routes.len() == kept.len();
+                        let mut side = CtxSide { ctx: sol.registry, held: (0..n).map(|_| None).collect() };
+                        for rc in sol.routes.into_iter() {
+                            if let Some(a) = (0..n).find(|&a| std::ptr::eq(Arc::as_ptr(fw.actor(a)), Arc::as_ptr(&rc.route().actor))) {
+                                side.held[a] = Some(rc);
+                            }
+                        }
+                        self.main = Some(side);
+                        if !ok {
+                            let detail = format!("keep_routes kept another number of routes than the predicate selected ({})", kept.len());
+                            let art = self.artefact(&detail);
+                            cx.report("regctx", "keep-routes-mismatch", opname, &detail, art);
+                            return false;
+                        }
+                        return self.check_all(cx, opname);
+                    }
+                    Err(p) => {
+                        let detail = format!("keep_routes panicked: {} at {}", p.message, p.location);
+                        let art = self.artefact(&detail);
+                        cx.report("regctx", "panic", opname, &detail, art);
+                        return false;
+                    }
+                }
+            }
             ROp::Copy { on_copy, via_solution } => {
                 let copied: Result<(CtxSide, CtxSide), PanicInfo> = if via_solution {
                     // the registry context travels inside a SolutionContext together with the held routes
@@ -2149,6 +2204,9 @@ fn run_reg_sequence(
 
 fn gen_reg_op(rng: &mut Rng, n: usize, ctx: bool) -> ROp {
     let a = if rng.chance(0.06) { n } else { rng.usize_below(n) };
+    if ctx && rng.chance(0.06) {
+        return ROp::KeepRoutes { mask: rng.next_u64() as u32 & ((1u32 << n) - 1) };
+    }
     let weights: [f64; 5] = if ctx { [3.0, 1.5, 3.5, 0.6, 0.5] } else { [4.0, 0.0, 4.0, 0.6, 0.5] };
     match rng.weighted(&weights) {
         0 => {
